@@ -34,6 +34,9 @@ MODE = P.get("mode", "roundtrip")
 BASE_SIGMA = P.get("sigma", "a1 ,()'\"+-*/=<>.;:|&!%[]\n")
 EXCLUDE = list(P.get("exclude", []))
 EXCLUDE_EXACT = list(P.get("exclude_exact", []))
+# known-finding region C01-number-dot-keyword: the hole is a "." right after a number (`1 . FROM` parses as a member access
+# and is generated as `1.FROM`, which lexes as the number `1.` followed by a keyword)
+EXCLUDE_NUMBER_DOT = bool(P.get("exclude_number_dot", False))
 
 D = Dialect.get_or_raise(DIALECT or None)
 SIGMA = "".join(sorted(set(BASE_SIGMA)))
